@@ -723,13 +723,17 @@ func (a *Assembler) AssembleWithContext(netFlow gopacket.Flow, t *layers.TCP, ac
 		}
 	}
 
+	// The FIN takes a sequence number after the bytes just sent only if this
+	// segment is itself sent now; a queued FIN segment may trigger a flush (page
+	// limit) of older pages, which must not move nextSeq past their end.
+	inOrder := !action.queue
 	action = a.handleBytes(bytes, seq, half, t.SYN, t.RST || t.FIN, action, ac)
 	if len(a.ret) > 0 {
 		action.nextSeq = a.sendToConnection(conn, half, ac)
 	}
 	if action.nextSeq != invalidSequence {
 		half.nextSeq = action.nextSeq
-		if t.FIN {
+		if t.FIN && inOrder {
 			half.nextSeq = half.nextSeq.Add(1)
 		}
 	}
